@@ -341,7 +341,13 @@ def check_exponents(job):
                 if c.cache.get(("isinf_decided",)):
                     # rejected as non-finite by interpreted code: only right if the exact value rounds to infinity
                     thr = 2 ** 1024 - 2 ** 970
-                    finite = "(< (* %d %s) %d)" % (10 ** e, w.s, thr) if e >= 0 else "(< %s %d)" % (w.s, thr * 10 ** (-e))
+                    nm = [t for t in getattr(c, "norms", []) if isinstance(t[0], T) and t[0].s == w.s]
+                    if e >= 0 and nm:
+                        # in terms of the normalised significand (exact: w = n / 2^lz), one linear disjunct per value of lz
+                        _, lzt, nt, _ = nm[0]
+                        finite = "(or %s)" % " ".join("(and (= %s %d) (< (* %d %s) %d))" % (lzt.s, k, 10 ** e, nt.s, thr << k) for k in range(64))
+                    else:
+                        finite = "(< (* %d %s) %d)" % (10 ** e, w.s, thr) if e >= 0 else "(< %s %d)" % (w.s, thr * 10 ** (-e))
                     r, _ = solver.query(c.script(["(not %s)" % trunc.s, finite]))
                     res["decided_returns"] += 1
                     if r == "sat":
